@@ -314,6 +314,63 @@ pub fn step(st: &mut DualState, t: &[&str]) -> Option<String> {
                 None => "err".to_string(),
             }
         }
+        ["dualfrom", id, other, mode, real, rest @ ..] => {
+            // `Dual::new_from` / `Dual::try_new_from`: a fresh number re-indexed onto ANOTHER number's variable list
+            let id: usize = id.parse().ok()?;
+            let real = pf(real)?;
+            let (ns, mut cs, tail) = parse_named(rest)?;
+            for x in tail {
+                cs.push(pf(x)?);
+            }
+            let o = st.vals.get(&other.parse().ok()?)?.clone();
+            let isnew = *mode == "n";
+            let r = catch_unwind(AssertUnwindSafe(|| match &o {
+                Number::Dual(od) if isnew => Some(Some(Dual::new_from(od, real, ns.clone()))),
+                Number::Dual2(od) if isnew => Some(Some(Dual::new_from(od, real, ns.clone()))),
+                Number::Dual(od) => Some(Dual::try_new_from(od, real, ns.clone(), cs.clone()).ok()),
+                Number::Dual2(od) => Some(Dual::try_new_from(od, real, ns.clone(), cs.clone()).ok()),
+                Number::F64(_) => None,
+            }));
+            match r {
+                Err(_) => "panic".to_string(),
+                Ok(None) => return None,
+                Ok(Some(None)) => "err".to_string(),
+                Ok(Some(Some(d))) => {
+                    let n = Number::Dual(d);
+                    let s = fmt_num(&n);
+                    st.vals.insert(id, n);
+                    st.grp.insert(id, 0);
+                    s
+                }
+            }
+        }
+        ["dual2from", id, other, mode, real, rest @ ..] => {
+            let id: usize = id.parse().ok()?;
+            let real = pf(real)?;
+            let (ns, cs, tail) = parse_named(rest)?;
+            let hs: Vec<f64> = tail.iter().map(|s| pf(s)).collect::<Option<_>>()?;
+            let o = st.vals.get(&other.parse().ok()?)?.clone();
+            let isnew = *mode == "n";
+            let r = catch_unwind(AssertUnwindSafe(|| match &o {
+                Number::Dual(od) if isnew => Some(Some(Dual2::new_from(od, real, ns.clone()))),
+                Number::Dual2(od) if isnew => Some(Some(Dual2::new_from(od, real, ns.clone()))),
+                Number::Dual(od) => Some(Dual2::try_new_from(od, real, ns.clone(), cs.clone(), hs.clone()).ok()),
+                Number::Dual2(od) => Some(Dual2::try_new_from(od, real, ns.clone(), cs.clone(), hs.clone()).ok()),
+                Number::F64(_) => None,
+            }));
+            match r {
+                Err(_) => "panic".to_string(),
+                Ok(None) => return None,
+                Ok(Some(None)) => "err".to_string(),
+                Ok(Some(Some(d))) => {
+                    let n = Number::Dual2(d);
+                    let s = fmt_num(&n);
+                    st.vals.insert(id, n);
+                    st.grp.insert(id, 0);
+                    s
+                }
+            }
+        }
         ["bin", op, i, j] => {
             let (i, j): (usize, usize) = (i.parse().ok()?, j.parse().ok()?);
             let a = st.vals.get(&i)?;
@@ -890,6 +947,52 @@ fn emit_dual2<W: Write>(out: &mut W, r: &mut Rng, id: usize, names: &[&str], grp
     writeln!(out, " {}", grp).unwrap();
 }
 
+/// `new_from` / `try_new_from` lines: mostly valid, sometimes a repeated name, a missing or surplus coefficient,
+/// a Hessian of the wrong size
+fn emit_from<W: Write>(out: &mut W, r: &mut Rng, id: usize, other: usize, names: &[&str], second: bool) -> bool {
+    let mode = if r.chance(1, 4) { "n" } else { "t" };
+    let mut valid = true;
+    let mut ns: Vec<&str> = names.to_vec();
+    if !ns.is_empty() && r.chance(1, 10) {
+        let dup = ns[0];
+        ns.push(dup);
+        valid = false;
+    }
+    let k = ns.len();
+    write!(out, "{} {} {} {} {} {}", if second { "dual2from" } else { "dualfrom" }, id, other, mode, hf(r.dyadic()), k).unwrap();
+    for n in &ns {
+        write!(out, " {} {}", n, hf(if r.chance(1, 4) { 0.0 } else { r.dyadic() })).unwrap();
+    }
+    if second {
+        let nh = match r.below(8) {
+            0 => 0,
+            1 => k * k + 1,
+            2 if k > 0 => k * k - 1,
+            _ => k * k,
+        };
+        if nh != 0 && nh != k * k {
+            valid = false;
+        }
+        let mut h = vec![0.0; k * k];
+        for i in 0..k {
+            for j in i..k {
+                let v = r.dyadic();
+                h[i * k + j] = v;
+                h[j * k + i] = v;
+            }
+        }
+        for i in 0..nh {
+            write!(out, " {}", hf(if i < k * k { h[i] } else { 1.0 })).unwrap();
+        }
+    } else if r.chance(1, 10) {
+        write!(out, " {}", hf(r.dyadic())).unwrap(); // surplus coefficient
+        valid = false;
+    }
+    writeln!(out).unwrap();
+    // `new_from` takes names only: always a value
+    valid || mode == "n"
+}
+
 const BINOPS: [&str; 5] = ["add", "sub", "mul", "div", "rem"];
 
 pub fn gen_c03<W: Write>(out: &mut W, thorough: bool, seed: u64) {
@@ -921,6 +1024,11 @@ pub fn gen_c03<W: Write>(out: &mut W, thorough: bool, seed: u64) {
                         }
                         writeln!(out, "cmp eq {} {}", a, b).unwrap();
                         writeln!(out, "cmp ne {} {}", a, b).unwrap();
+                        // constructors re-indexed onto b's list: names of la, projected name by name
+                        if emit_from(out, &mut r, id + 100000, b, la, kind == 1 || ia % 2 == 1) {
+                            // the result shares the other number's list: the pointer-equal arm of +
+                            writeln!(out, "bin add {} {}", id + 100000, b).unwrap();
+                        }
                         writeln!(out, "reset").unwrap();
                     }
                 }
@@ -1432,6 +1540,14 @@ pub fn gen_c01<W: Write>(out: &mut W, thorough: bool, seed: u64) {
         writeln!(out, "eval + Kh3ff8000000000000 p{} L1", hf(p)).unwrap();
     }
     writeln!(out, "reset").unwrap();
+    // far tails of the normal cdf: the density is tiny but not zero, and log(cdf) brings it back to order one
+    for (i, x) in [-12.0, -10.0, -9.0, -8.5, -8.3125, -8.0, 8.0, 8.3125, 8.5, 9.0].iter().enumerate() {
+        writeln!(out, "dual {} {} 2 x {} y {} 0", 10 + i, hf(*x), hf(1.0), hf(-2.5)).unwrap();
+        writeln!(out, "eval c L{}", 10 + i).unwrap();
+        writeln!(out, "eval l c L{}", 10 + i).unwrap();
+        writeln!(out, "eval / L{} c L{}", 10 + i, 10 + i).unwrap();
+    }
+    writeln!(out, "reset").unwrap();
 }
 
 pub fn gen_c02<W: Write>(out: &mut W, thorough: bool, seed: u64) {
@@ -1444,6 +1560,13 @@ pub fn gen_c02<W: Write>(out: &mut W, thorough: bool, seed: u64) {
     writeln!(out, "dual2 2 {} 2 x {} y {} {} {} {} {} 0", hf(0.0), hf(1.0), hf(-2.5), hf(0.5), hf(0.25), hf(0.25), hf(-1.0)).unwrap();
     for p in [0.0, 1.0, 2.0, 3.0] {
         writeln!(out, "evalgrad2 p{} L2", hf(p)).unwrap();
+    }
+    writeln!(out, "reset").unwrap();
+    // far tails of the normal cdf (see gen_c01)
+    for (i, x) in [-12.0, -10.0, -9.0, -8.5, -8.3125, -8.0, 8.0, 8.3125, 8.5, 9.0].iter().enumerate() {
+        writeln!(out, "dual2 {} {} 1 x {} {} 0", 10 + i, hf(*x), hf(1.0), hf(0.25)).unwrap();
+        writeln!(out, "evalgrad2 c L{}", 10 + i).unwrap();
+        writeln!(out, "evalgrad2 l c L{}", 10 + i).unwrap();
     }
     writeln!(out, "reset").unwrap();
 }
